@@ -10,6 +10,8 @@ import FrappyProofs.Lemmas.CommProtect
 import FrappyProofs.Lemmas.CommStateTrue
 import FrappyProofs.Lemmas.CommCallbacksIdent
 import FrappyProofs.Lemmas.CommTimeoutAll
+import FrappyProofs.Lemmas.CommGlue
+import FrappyProofs.Lemmas.CommWait
 import FrappyModel.Generated.C16
 /-
 C16 — property theorems (nothing but property theorems and their non-vacuity examples).
@@ -1603,5 +1605,192 @@ example : Accepted findingCfg [] findingRun ∧ stateNotOverwrittenB findingRun 
 
 /-- … and the first half (the update `is_connected = false` is made before the detecting call returns) holds on it -/
 example : StateVisible findingRun := by unfold StateVisible; decide
+
+/-! ## `wait_before` is honoured before every line put on the wire (glue model `commPlan`, io.py:330-346) -/
+
+/-- nothing of the command is lost, doubled or reordered by cutting it into lines: the sends of one communicate, put
+together, are the command followed by the send terminator — for every terminator, with or without `wait_before` -/
+theorem send_plan_intact (w : Nat) (eolW cmd : Bytes) : (sendPlan w eolW cmd).flatten = cmd ++ eolW := by
+  unfold sendPlan commandLines
+  split
+  · exact splitAll_flatten eolW cmd.length cmd
+  · simp
+
+/-- with a pause owed before every line (`wait_before ≠ 0`) and a send terminator of one byte, every send of a
+communicate carries exactly ONE line (the clause `oneLineB` of the monitor `waitBeforeHonouredB`) -/
+theorem send_plan_one_line (w b : Nat) (cmd : Bytes) (hw : w ≠ 0) :
+    ∀ d ∈ sendPlan w [b] cmd, oneLineB [b] d = true := by
+  intro d hd
+  unfold sendPlan commandLines at hd
+  simp only [hw, ne_eq, not_false_eq_true, List.cons_ne_self, and_self, ↓reduceIte, List.mem_map] at hd
+  obtain ⟨p, hp, rfl⟩ := hd
+  have hfree := splitAll1_free b cmd.length cmd (Nat.le_refl _) p hp
+  simp [oneLineB, splitFirst1_line b p hfree]
+
+/-- a pause of `w` has passed since the last send -/
+def planPaced (w : Nat) : Bool → List PlanEv → Bool
+  | _, [] => true
+  | _, .slp d :: es => planPaced w (decide (w ≤ d)) es
+  | r, .flush :: es => planPaced w r es
+  | r, .send _ :: es => r && planPaced w false es
+
+theorem planFrom_paced (w : Nat) (hw : w ≠ 0) : ∀ (ds : List Bytes) (i : Nat) (r : Bool), planPaced w r (planFrom w i ds) = true
+  | [], i, r => by simp [planFrom, planPaced]
+  | d :: ds, i, r => by
+    have ih := planFrom_paced w hw ds (i + 1) false
+    by_cases hi : i = 0
+    · subst hi; simpa [planFrom, lineEvents, hw, planPaced] using ih
+    · simp [planFrom, lineEvents, hw, hi, planPaced, ih]
+
+/-- every send of a communicate comes after a pause of its own: between two sends of the plan (and before the
+first) the caller sleeps `wait_before` — for every terminator and every command -/
+theorem comm_plan_paced (w : Nat) (eolW cmd : Bytes) (hw : w ≠ 0) : planPaced w false (commPlan w eolW cmd) = true :=
+  planFrom_paced w hw _ 0 false
+
+/-- non-vacuity: a command without reply joined with a query, distinct terminators: two sends, a pause before each;
+the behaviour of a cut at the RECEIVE terminator (one send for both lines) is not a plan of the model and breaks the clause -/
+example : commPlan 200000 [13] [83, 13, 82] = [.slp 200000, .flush, .send [83, 13], .slp 200000, .send [82, 13]] ∧
+    oneLineB [13] [83, 13, 82, 13] = false ∧ oneLineB [13] [82, 13] = true := by decide
+
+/-- the quirk the transcription keeps: a command that ends with the terminator yields an empty last line — a bare
+terminator is sent; and with a terminator that overlaps itself a line may swallow part of the next terminator
+(`send_plan_one_line` is stated for terminators of one byte) -/
+example : sendPlan 1 [13] [65, 13] = [[65, 13], [13]] ∧
+    sendPlan 1 [97, 97] [97, 97, 97] = [[97, 97], [97, 97, 97]] ∧ oneLineB [97, 97] [97, 97, 97] = false := by decide
+
+/-- the clause for the transaction model (which sends the requests it is given, one send each): the pause -/
+def wait_before_paced_statement : Prop := ∀ cfg cbs evs, Accepted cfg cbs evs → pacedB cfg.waitBefore evs = true
+
+/-- event form: in every accepted run (any configuration, identification included), with `wait_before ≠ 0`, every send —
+of a command or of an identification request — at position q by caller c is preceded by a sleep of c of `wait_before`
+that began at least that much earlier, with no send of c in between (invariant `WbInv`, `Lemmas/CommWait.lean`) -/
+theorem wait_before_paced_run (cfg : Cfg) (cbs : List Nat) (evs : List TEv) (hacc : Accepted cfg cbs evs)
+    (hw : cfg.waitBefore ≠ 0) (q c : Nat) (hq : sendLikeAt evs q = some c) :
+    ∃ p, p < q ∧ evAt evs p = some (.slp c cfg.waitBefore) ∧ timeAt evs p + cfg.waitBefore ≤ timeAt evs q ∧
+      ∀ m, p < m → m < q → sendLikeAt evs m ≠ some c := by
+  unfold Accepted at hacc
+  cases hex : exec { cfg := cfg, cbsReg := cbs } evs with
+  | none => simp [hex] at hacc
+  | some sf =>
+    have hsome : ∃ e, evs[q]? = some e := by
+      cases hge : evs[q]? with
+      | none => simp [sendLikeAt, evAt, hge] at hq
+      | some e => exact ⟨e, rfl⟩
+    obtain ⟨e, he⟩ := hsome
+    obtain ⟨sk, sk', hpre, hst⟩ := exec_cut _ evs q e he sf hex
+    have hi := wbinv_exec cfg cbs (evs.take q) sk hw hpre
+    have hqlt : q < evs.length := by
+      false_or_by_contra; rename_i hn
+      rw [List.getElem?_eq_none (by omega)] at he; simp at he
+    have hev : evAt evs q = some e.ev := by simp [evAt, he]
+    have hsl : sendLikeEv e.ev = true ∧ e.ev.who = some c := by
+      rw [sendLikeAt_eq, hev] at hq
+      simp only [Option.bind_some] at hq
+      split at hq
+      · next h1 => exact ⟨h1, hq⟩
+      · simp at hq
+    have hclk : sk.clock ≤ e.t := by
+      unfold step at hst; split at hst
+      · simp at hst
+      · omega
+    rw [step_caller_form sk e c hsl.2] at hst
+    split at hst
+    · simp at hst
+    · have hr := step_send_rested _ sk' e.t c e.ev hst hsl.1
+      obtain ⟨T, hT, p, hp, hpev, hpt, hno⟩ := hi.rs c hr
+      simp only [List.length_take] at hp
+      have hpq : p < q := by omega
+      refine ⟨p, hpq, by rw [← evAt_take evs q p hpq]; exact hpev, ?_, ?_⟩
+      · rw [timeAt_take evs q p hpq] at hpt
+        have : timeAt evs q = e.t := by simp [timeAt, he]
+        omega
+      · intro m h1 h2
+        have := hno m h1 (by simp only [List.length_take]; omega)
+        unfold sendLikeAt at this ⊢
+        rwa [evAt_take evs q m h2] at this
+
+/-- **the pause clause in the form of the monitor**, for every accepted run of the transaction model -/
+theorem wait_before_paced : wait_before_paced_statement := by
+  intro cfg cbs evs hacc
+  unfold pacedB waitBeforeHonouredB
+  by_cases hw : cfg.waitBefore = 0
+  · simp [hw]
+  · simp only [Bool.or_eq_true, beq_iff_eq, hw, false_or, allBelow, List.all_eq_true, List.mem_range]
+    intro q _
+    cases hd : sendLikeData evs q with
+    | none => rfl
+    | some cd =>
+      obtain ⟨c, data⟩ := cd
+      have hq : sendLikeAt evs q = some c := by
+        unfold sendLikeData at hd; unfold sendLikeAt
+        cases hev : evAt evs q with
+        | none => simp [hev] at hd
+        | some ev => cases ev <;> simp [hev] at hd ⊢ <;> exact hd.1
+      obtain ⟨p, hpq, hpev, hpt, hno⟩ := wait_before_paced_run cfg cbs evs hacc hw q c hq
+      simp only [oneLineB, List.isEmpty_nil, Bool.true_or, Bool.true_and, List.any_eq_true, List.mem_range]
+      refine ⟨p, hpq, ?_⟩
+      simp only [hpev, beq_self_eq_true, Nat.le_refl, decide_true, Bool.true_and, Bool.and_eq_true, decide_eq_true_eq]
+      refine ⟨hpt, ?_⟩
+      simp only [allBetween, List.all_eq_true, List.mem_range, Bool.or_eq_true, Bool.not_eq_eq_eq_not, Bool.not_true,
+        decide_eq_false_iff_not, beq_eq_false_iff_ne]
+      intro m hm
+      by_cases hpm : p < m
+      · exact Or.inr (hno m hpm hm)
+      · exact Or.inl hpm
+
+/-- non-vacuity: an accepted run with `wait_before` 0.05 s — the send comes 0.05 s after the sleep began -/
+def pacedCfg : Cfg := { findingCfgA with waitBefore := 50000 }
+def pacedRun : List TEv := [
+  ⟨0, .call 1 .poll []⟩, ⟨1, .now 1 1⟩, ⟨1, .connect 1 true false⟩, ⟨2, .isconn 1 true⟩, ⟨3, .ret 1 (.ok [])⟩,
+  ⟨10, .call 1 .comm [⟨[65, 10], true, 0, 0⟩]⟩, ⟨11, .chk 1 true⟩, ⟨12, .acq 1⟩, ⟨13, .slp 1 50000⟩, ⟨50013, .wake 1⟩,
+  ⟨50014, .flush 1⟩, ⟨50015, .send 1 0 0 [65, 10]⟩]
+example : Accepted pacedCfg [] pacedRun ∧ pacedCfg.waitBefore ≠ 0 ∧ sendLikeAt pacedRun 11 = some 1 ∧
+    pacedB pacedCfg.waitBefore pacedRun = true ∧ pacedB pacedCfg.waitBefore (pacedRun.eraseIdx 8) = false := by
+  unfold Accepted; decide
+
+/-- with `wait_before ≠ 0` a caller that has taken the inner lock of communicate sleeps first (the flush and the send
+come after `slp wait_before` … `wake`, see `delays_honoured_partial_sleep` / `_wake`) -/
+theorem wait_before_partial (s s' : State) (t c : Nat) (hpc : (s.callers c).pc = .acqI) (hw : s.cfg.waitBefore ≠ 0)
+    (h : stepCaller s t c (.acq c) = some s') : (s'.callers c).pc = .slpWB := by
+  simp only [stepCaller, hpc, doAcqI] at h
+  split at h
+  · simp only [Option.some.injEq] at h; subst h; simp [hw, State.setC, State.acquire]
+  · simp at h
+
+/-! ## self-healing goes back to the same device (glue model `tcpInit`, asynconn.py:171-179) -/
+
+/-- every connect of a communicator — the first one and every reconnect — is made to the same port: the class-level
+default settings are only read, never consumed -/
+theorem connect_targets_same (up : Option Nat) : ∀ (n : Nat) (d : TcpSettings) (p : Nat),
+    p ∈ connectTargets up n d → p = (tcpInit up d).2
+  | 0, d, p, h => by simp [connectTargets] at h
+  | n + 1, d, p, h => by
+    simp only [connectTargets, List.mem_cons] at h
+    rcases h with h | h
+    · exact h
+    · have := connect_targets_same up n (tcpInit up d).1 p h
+      simpa [tcpInit] using this
+
+theorem connect_targets_length (up : Option Nat) : ∀ (n : Nat) (d : TcpSettings), (connectTargets up n d).length = n
+  | 0, _ => rfl
+  | n + 1, d => by simp [connectTargets, connect_targets_length up n]
+
+/-- … in the form of the monitor: on a log with n connect attempts the targets of the model satisfy `reconnectSameTargetB` -/
+theorem reconnect_same_target (up : Option Nat) (d : TcpSettings) (log : Log) :
+    ReconnectSameTarget ((connectTargets up (connectCount log) d).map fun p => (0, p)) log := by
+  unfold ReconnectSameTarget reconnectSameTargetB
+  simp only [List.length_map, connect_targets_length, beq_self_eq_true, Bool.true_and, List.all_eq_true, List.mem_map]
+  rintro a ⟨p, hp, rfl⟩
+  have hp' := connect_targets_same up _ d p hp
+  cases hn : connectCount log with
+  | zero => rw [hn] at hp; simp [connectTargets] at hp
+  | succ n => simp [connectTargets, hp']
+
+/-- non-vacuity: port from the class defaults (uri without port), three connects — and the behaviour of settings that
+are consumed by the first connect (the reconnects go to the SECoP default port) breaks the clause -/
+example : connectTargets none 3 ⟨some 7777⟩ = [7777, 7777, 7777] ∧ connectTargets (some 4001) 2 ⟨some 7777⟩ = [4001, 4001] ∧
+    connectTargets none 2 ⟨none⟩ = [Frappy.Generated.C16.secopDefaultPort, 10767] ∧
+    reconnectSameTargetB [(0, 7777), (0, 10767)] [⟨0, .connect 1 true true⟩, ⟨5, .connect 1 false true⟩] = false ∧
+    reconnectSameTargetB [(0, 7777), (0, 7777)] [⟨0, .connect 1 true true⟩, ⟨5, .connect 1 true true⟩] = true := by decide
 
 end Frappy.Props.C16
